@@ -604,4 +604,84 @@ Section InvAny.
             (Nat.ltb_spec j (left + (p + list_sum (map fst os)))), (Nat.ltb_spec (j - left) p);
             cbn [andb]; try reflexivity; lia.
   Qed.
+
+  Lemma squareb_intro n (M : list (list (T O))) :
+    length M = n -> (forall i, i < n -> length (nth i M []) = n) -> squareb n M = true.
+  Proof.
+    intros HL HR. unfold squareb. rewrite HL, Nat.eqb_refl. cbn [andb]. apply forallb_forall.
+    intros r Hr. apply (In_nth _ _ []) in Hr as (i & Hi & <-). apply Nat.eqb_eq. apply HR. lia.
+  Qed.
+  Lemma inv_okb_parts (iv : inv (T O)) : inv_okb iv = true ->
+    blocks_okb (objs iv) (blocks iv) = true /\ squareb (n_params (objs iv)) (curv iv) = true /\
+    length (recon iv) = n_params (objs iv).
+  Proof.
+    unfold inv_okb, blocks_okb. intros H. apply andb_prop in H as [H H4]. apply andb_prop in H as [H H3].
+    apply Nat.eqb_eq in H4. auto.
+  Qed.
+  (* H: square, entries given by the owner-object rule *)
+  Lemma regularization_matrix_ok (iv : inv (T O)) : inv_okb iv = true ->
+    squareb (n_params (objs iv)) (regularization_matrix iv) = true /\
+    forall i j, i < n_params (objs iv) -> j < n_params (objs iv) -> mat_at (regularization_matrix iv) i j = s_H iv i j.
+  Proof.
+    intros H. destruct (inv_okb_parts iv H) as (HB & _ & _). unfold regularization_matrix, s_H.
+    rewrite total_params_is.
+    destruct (block_diag_entries (objs iv) (blocks iv) 0 (n_params (objs iv)) HB (le_n _)) as (L & RW & E).
+    split; [apply squareb_intro; assumption|]. intros i j Hi Hj. unfold bds in E. rewrite (E i j Hi Hj).
+    cbn [Nat.leb andb Nat.add]. rewrite Nat.sub_0_r. destruct (Nat.ltb_spec j (n_params (objs iv))); [reflexivity | lia].
+  Qed.
+  (* F + H (when something is regularized): square, entries F[i][j] + H[i][j] *)
+  Lemma curvature_reg_matrix_ok (iv : inv (T O)) : inv_okb iv = true ->
+    squareb (n_params (objs iv)) (curvature_reg_matrix iv) = true /\
+    (has_reg (objs iv) = true -> forall i j, i < n_params (objs iv) -> j < n_params (objs iv) ->
+       mat_at (curvature_reg_matrix iv) i j = s_FH iv i j).
+  Proof.
+    intros H. destruct (inv_okb_parts iv H) as (_ & HF & _). destruct (regularization_matrix_ok iv H) as (HH & HE).
+    destruct (squareb_spec _ _ HF) as [FL FR]. destruct (squareb_spec _ _ HH) as [HL HR].
+    unfold curvature_reg_matrix, s_FH. destruct (has_reg (objs iv)); cbn [negb]; [|split; [exact HF | discriminate]].
+    assert (RowI : forall i, i < n_params (objs iv) ->
+              nth i (map2 (map2 (add O)) (curv iv) (regularization_matrix iv)) [] =
+              map2 (add O) (nth i (curv iv) []) (nth i (regularization_matrix iv) [])).
+    { intros i Hi. apply nth_map2; lia. }
+    split.
+    - apply squareb_intro; [rewrite map2_length; lia|]. intros i Hi. rewrite RowI by exact Hi.
+      rewrite map2_length; rewrite ?FR, ?HR; auto.
+    - intros _ i j Hi Hj. unfold mat_at in *. rewrite RowI by exact Hi.
+      rewrite (nth_map2 _ zero zero zero); rewrite ?FR, ?HR; auto. rewrite HE by assumption. reflexivity.
+  Qed.
+
+  Definition Rset (iv : inv (T O)) : list nat := reg_indices (objs iv).
+  (* the reduced matrices / vector are the restrictions to the regularized parameters *)
+  Theorem regularization_matrix_reduced_is_principal (iv : inv (T O)) : inv_okb iv = true ->
+    regularization_matrix_reduced iv = tabulate (s_H iv) (Rset iv).
+  Proof.
+    intros H. destruct (regularization_matrix_ok iv H) as (HH & HE). unfold regularization_matrix_reduced.
+    rewrite reduce_matrix_is_principal by exact HH. unfold principal_sub, tabulate, Rset.
+    apply map_ext_in. intros i Hi. apply map_ext_in. intros j Hj. apply HE; apply reg_indices_lt; assumption.
+  Qed.
+  Theorem curvature_reg_matrix_reduced_is_principal (iv : inv (T O)) : inv_okb iv = true ->
+    curvature_reg_matrix_reduced iv = tabulate (s_FH iv) (Rset iv).
+  Proof.
+    intros H. destruct (curvature_reg_matrix_ok iv H) as (HH & HE). unfold curvature_reg_matrix_reduced.
+    rewrite reduce_matrix_is_principal by exact HH. unfold principal_sub, tabulate, Rset.
+    destruct (has_reg (objs iv)) eqn:G.
+    - apply map_ext_in. intros i Hi. apply map_ext_in. intros j Hj. apply HE; auto; apply reg_indices_lt; assumption.
+    - rewrite (reg_indices_none _ G). reflexivity.
+  Qed.
+  Theorem reconstruction_reduced_is_restriction (iv : inv (T O)) : inv_okb iv = true ->
+    reconstruction_reduced iv = map (at_ (recon iv)) (Rset iv).
+  Proof.
+    intros H. destruct (inv_okb_parts iv H) as (_ & _ & HL). unfold reconstruction_reduced, Rset, at_.
+    destruct (all_have_reg (objs iv)) eqn:A.
+    - rewrite (reg_indices_all _ A), <- HL. apply list_as_map.
+    - apply np_delete_noreg. exact HL.
+  Qed.
+  (* both log-determinants are taken of the matrices restricted to the regularized parameters *)
+  Theorem log_det_terms_are_restricted (iv : inv (T O)) : inv_okb iv = true ->
+    log_det_curvature_reg_matrix_term iv = (if has_reg (objs iv) then s_logdet_FH iv else zero) /\
+    log_det_regularization_matrix_term iv = (if has_reg (objs iv) then s_logdet_H iv else zero).
+  Proof.
+    intros H. unfold log_det_curvature_reg_matrix_term, log_det_regularization_matrix_term, logdet, s_logdet_FH, s_logdet_H.
+    rewrite curvature_reg_matrix_reduced_is_principal, regularization_matrix_reduced_is_principal by exact H.
+    destruct (has_reg (objs iv)); split; reflexivity.
+  Qed.
 End InvAny.
